@@ -69,6 +69,13 @@ pub(super) fn creation_timestamp_of_currentfile(
             fmt,
         );
 
+        #[cfg(flexi_logger_verif)]
+        {
+            crate::verif_hooks::point("rename.before");
+            if let Some(e) = crate::verif_hooks::fault("rename", &current_path) {
+                return Err(e);
+            }
+        }
         match std::fs::rename(current_path.clone(), rotated_path.clone()) {
             Ok(()) => {}
             Err(e) => {
@@ -77,6 +84,8 @@ pub(super) fn creation_timestamp_of_currentfile(
                 }
             }
         }
+        #[cfg(flexi_logger_verif)]
+        crate::verif_hooks::point("rename.after");
     }
     Ok(get_creation_timestamp(&current_path))
 }
@@ -87,6 +96,8 @@ pub(super) fn latest_timestamp_file(
     rotate: bool,
     fmt: &InfixFormat,
 ) -> DateTime<Local> {
+    #[cfg(flexi_logger_verif)]
+    use crate::verif_hooks::VLocal as Local;
     if rotate {
         Local::now()
     } else {
